@@ -105,7 +105,7 @@ def gen_case(rng):
     if rng.random() < 0.25:
         endless = rng.choice([1, 1, unit, 2 * unit + 1])
     else:
-        n = rng.choice([0, 1, 1, 2, 3, 5, 9])
+        n = rng.choice([0, 1, 1, 2, 3, 4, 5, 9])
         style = rng.weighted([("fast", 3), ("boundary", 3), ("slow", 2)])
         for _ in range(n):
             if style == "fast":
